@@ -2258,3 +2258,102 @@ def sphere_layers(P, rep, rule="GRID.sphere-layers"):
         else:
             rep.ok(rule, "each layer is a fresh copy of the unit shell projected onto its radius; " + detail, F.nloc(call), F.qn)
     rep.floor(rule, n, 1, "layer loops that project the shell")
+
+
+# ------------------------------------------------------------------------------------------------
+def chunk_bounds_validation(P, rep, rule="GRID.bounds"):
+    """gwb-grid refuses chunk bounds it cannot mesh: the release-active checks, taken together, must imply what their messages promise"""
+    rep.rule(rule, "gwb-grid, chunk grid: the WBAssertThrow checks on the bounds together imply max latitude <= 90 degrees, min latitude >= -90 "
+                   "degrees and longitude span <= 360 degrees (decided as a linear program over the asserted inequalities), and no check is "
+                   "implied by the ones before it (a check that can never fail refuses nothing)")
+    from scipy.optimize import linprog
+    F = main_of(P, "gwb-grid")
+    # the chunk branch: the block that holds the assertion mentioning the longitude span
+    asserts = []
+    for g in F.walk():
+        if g.get("k") == "IfStmt" and g.get("m") == "WBAssertThrow" and not g.get("ma"):
+            c = sc(g["c"][0])
+            if c.get("k") == "UnaryOperator" and c.get("op") == "!":
+                asserts.append((g, sc(c["c"][0])))
+    names = ["x_min", "x_max", "y_min", "y_max"]
+    keys = {}
+    for nm in names:
+        try:
+            keys[nm] = var_by_name(F, nm)
+        except AnalysisBroken:
+            raise AnalysisBroken("gwb-grid: variable %s not found" % nm)
+    syms = {nm: sp.Symbol(nm, real=True) for nm in names}
+    symb = norm.Sym(P, F, inline_locals=False, env={keys[nm]: syms[nm] for nm in names},
+                    hook=lambda n: sp.pi if n.get("k") == "DeclRefExpr" and P.d(n.get("r")).get("qn") == "WorldBuilder::Consts::PI" else None)
+    chunk = []
+    for g, c in asserts:
+        if c.get("k") != "BinaryOperator" or c.get("op") not in ("<", "<=", ">", ">="):
+            continue
+        try:
+            l, r = sp.expand(symb(c["c"][0])), sp.expand(symb(c["c"][1]))
+        except Exception:
+            continue
+        e = l - r if c["op"] in ("<", "<=") else r - l        # the assertion says e <= 0
+        if not e.free_symbols or (e.free_symbols - set(syms.values())):
+            continue
+        try:
+            po = sp.Poly(e, *[syms[nm] for nm in names])
+        except Exception:
+            continue
+        if po.total_degree() != 1:
+            continue
+        row = [float(po.coeff_monomial(syms[nm])) for nm in names]
+        const = float(po.coeff_monomial(1))
+        chunk.append((g, c, row, -const))      # row . v <= rhs
+    # keep the run of assertions that belongs to the chunk geometry: those inside the same compound statement as the span check
+    span = [t for t in chunk if t[2][0] != 0 and t[2][1] != 0 and abs(t[3]) > 1.0]
+    if not span:
+        raise AnalysisBroken("gwb-grid: longitude span check of the chunk grid not found")
+    def block_of(g):
+        """the block the assertion statement stands in (outside the macro's own do { } while (false))"""
+        top = g
+        for a in F.ancestors(g):
+            if a.get("m") == "WBAssertThrow":
+                top = a
+        par = F.parent.get(top["i"])
+        while par is not None and par.get("k") != "CompoundStmt":
+            par = F.parent.get(par["i"])
+        return par
+    blk = block_of(span[0][0])
+    chunk = [t for t in chunk if block_of(t[0]) is blk]
+    rep.floor(rule, len(chunk), 5, "linear bound checks of the chunk grid")
+
+    def maximum(obj, facts):
+        """max of obj . v subject to facts (None = unbounded)"""
+        import numpy as np
+        if not facts:
+            return None
+        res = linprog(c=[-o for o in obj], A_ub=np.array([f[2] for f in facts]), b_ub=np.array([f[3] for f in facts]), bounds=[(None, None)] * 4, method="highs")
+        if res.status == 3:
+            return None
+        if res.status != 0:
+            return None
+        return -res.fun
+    import math
+    # vacuous checks
+    for i, t in enumerate(chunk):
+        mx = maximum(t[2], chunk[:i])
+        if mx is not None and mx <= t[3] + 1e-12:
+            rep.violation(rule, "the check `%s` can never fail: it follows from the checks before it" % norm.render(P, t[1])[:80], F.nloc(t[0]), F.qn,
+                          norm.render(P, t[1])[:120], "the bound its message promises is not enforced", key="%s|vacuous|%s" % (rule, norm.render(P, t[1])[:40]),
+                          witness="a chunk that spans more than 360 degrees of longitude")
+        else:
+            rep.ok(rule, "`%s` restricts the bounds" % norm.render(P, t[1])[:70], F.nloc(t[0]), F.qn)
+    # what the checks promise together
+    targets = [("max latitude <= 90 degrees", [0, 0, 0, 1], math.pi / 2, "a chunk whose y_max is 120 degrees"),
+               ("min latitude >= -90 degrees", [0, 0, -1, 0], math.pi / 2, "a chunk whose y_min is -120 degrees"),
+               ("longitude span <= 360 degrees", [-1, 1, 0, 0], 2 * math.pi, "a chunk from -300 to 300 degrees longitude")]
+    for label, obj, lim, wit in targets:
+        mx = maximum(obj, chunk)
+        if mx is None or mx > lim + 1e-9:
+            rep.violation(rule, "the bound checks of the chunk grid do not imply %s (%s)" % (label, "unbounded" if mx is None else "up to %.4g rad" % mx),
+                          F.nloc(chunk[0][0]), F.qn, "; ".join(norm.render(P, t[1])[:40] for t in chunk)[:200],
+                          "an impossible chunk is meshed (the mesh folds over the pole / overlaps itself) instead of being refused",
+                          key="%s|%s" % (rule, label.split(" <")[0].split(" >")[0]), witness=wit)
+        else:
+            rep.ok(rule, "the checks imply %s" % label, F.nloc(chunk[0][0]), F.qn)
